@@ -358,7 +358,9 @@ def c_make(named):
         ensures=[('C15-the-task-was-built-for-exactly-this-request', 'request_of(result) is present_request'),
                  ('cache-invariant-preserved', CACHE_INV.format(c='self.cache')),
                  ('C15-identical-request-hits-the-cache', 'implies(result.name in old(self.cache) and old(self.cache)[result.name][1] is present_request, '
-                                                          'result is old(self.cache)[result.name][0])')],
+                                                          'result is old(self.cache)[result.name][0])'),
+                 ('C15-a-request-leaves-the-dependencies-of-the-factory-and-of-the-caller-alone',
+                  'same_content(self.deps, old(self.deps)) and same_content(self.soft_deps, old(self.soft_deps)) and same_content(deps, old(deps)) and same_content(soft_deps, old(soft_deps))')],
         signals={}, variant='explicit-name' if named else 'generated-name')
 
 
